@@ -198,17 +198,27 @@ func (x *Exec) callInner(st *State, v *ssa.Call, args []Value, cn callName) bool
 				names = append(names, n)
 			}
 			if ok {
-				x.check(st, "nil", "call "+cn.name, v, b.Ne(x.funcID(fv), b.Int(0)), "call of nil function value")
+				x.nilFuncCheck(st, fv, v, cn)
 			}
 			x.applyContract(st, ct, sig, names, args, v, cn)
 			return !st.dead
 		}
 	}
 	if ok {
-		x.check(st, "nil", "call "+cn.name, v, b.Ne(x.funcID(fv), b.Int(0)), "call of nil function value")
+		x.nilFuncCheck(st, fv, v, cn)
 	}
 	x.havocCall(st, v, "funcvalue:"+cn.name, args, cn)
 	return true
+}
+
+func (x *Exec) nilFuncCheck(st *State, fv FuncV, v *ssa.Call, cn callName) {
+	b := x.b
+	if fid := x.funcID(fv); x.contract != nil && x.contract.HeapNonNil && fid.Op == "select" {
+		x.notes["pointers and interfaces loaded from memory are assumed non-nil (heapnonnil sweep contract)"] = true
+		st.assume(b.Ne(fid, b.Int(0)))
+	} else {
+		x.check(st, "nil", "call "+cn.name, v, b.Ne(fid, b.Int(0)), "call of nil function value")
+	}
 }
 
 func ifaceKeys(c *ssa.CallCommon) []string {
@@ -348,12 +358,22 @@ func (x *Exec) applyContract(st *State, ct *Contract, sig *types.Signature, name
 			nm[n] = args[i]
 		}
 	}
+	if sig.Recv() != nil && len(args) > 0 {
+		if _, taken := nm["self"]; !taken {
+			nm["self"] = args[0] // the receiver, whatever the build's source calls it
+		}
+	}
 	ctx := &SpecCtx{x: x, st: st, names: nm, old: pre, pkg: pkgOfKey(x, ct)}
 	// default preconditions: non-nil pointer parameters
 	for i, n := range names {
 		if p, ok := args[i].(PtrV); ok && !ct.Nullable[n] {
 			g := b.Ne(p.Obj, b.Int(0))
 			if !g.IsTrue() {
+				if x.contract != nil && x.contract.HeapNonNil && p.Obj.Op == "select" {
+					x.notes["pointers and interfaces loaded from memory are assumed non-nil (heapnonnil sweep contract)"] = true
+					st.assume(g)
+					continue
+				}
 				x.check(st, fmt.Sprintf("call:%s#%d:nonnil:%s", cn.name, cn.ord, n), "", nil, g, "argument "+n+" is not nil")
 			}
 		}
